@@ -144,6 +144,13 @@ func (l *RPCLog) endMsg(ev *Event, err error, out []byte) {
 	l.mu.Unlock()
 }
 
+// HandlerState reports whether the handler started and whether it returned.
+func (l *RPCLog) HandlerState() (ran, done bool) {
+	l.mu.Lock()
+	defer l.mu.Unlock()
+	return l.HandlerRan, l.HandlerDone
+}
+
 // Snapshot returns a copy of the events (safe while ops are in flight).
 func (l *RPCLog) Snapshot() []Event {
 	l.mu.Lock()
@@ -161,12 +168,16 @@ type Config struct {
 	Client drpcmanager.Options
 	Server drpcmanager.Options
 	Desc   string
+	Real   func() (client, server drpc.Transport, cleanup func())
 }
 
 // Exec is a running program.
 type Exec struct {
 	// AfterSend, if set, is called right after every MsgSend returned.
 	AfterSend func(l *RPCLog, side byte, msg []byte, err error)
+	// AfterFlush, if set, is called after a call that must flush (RawFlush,
+	// CloseSend, Close) returned nil, with the name of the call.
+	AfterFlush func(l *RPCLog, side byte, op string)
 	// OnQ, if set, is called by the 'q' action once the process is quiescent.
 	OnQ func(l *RPCLog, side byte)
 
@@ -185,7 +196,7 @@ func New(cfg Config, scripts []*Script) *Exec {
 		x.logs[s.Tag] = &RPCLog{Script: s}
 		x.order = append(x.order, s.Tag)
 	}
-	x.Rig = rig.New(rig.Config{Net: cfg.Net, Client: cfg.Client, Server: cfg.Server}, rig.HandlerFunc(x.handle))
+	x.Rig = rig.New(rig.Config{Net: cfg.Net, Client: cfg.Client, Server: cfg.Server, Real: cfg.Real}, rig.HandlerFunc(x.handle))
 	return x
 }
 
@@ -297,10 +308,18 @@ func (x *Exec) runActs(l *RPCLog, side byte, st drpc.Stream, acts []Act, cancel 
 			}
 		case 'h':
 			ev := l.begin(side, "closesend", 0, 0)
-			l.end(ev, st.CloseSend())
+			err := st.CloseSend()
+			l.end(ev, err)
+			if err == nil && x.AfterFlush != nil {
+				x.AfterFlush(l, side, "closesend")
+			}
 		case 'c':
 			ev := l.begin(side, "close", 0, 0)
-			l.end(ev, st.Close())
+			err := st.Close()
+			l.end(ev, err)
+			if err == nil && x.AfterFlush != nil {
+				x.AfterFlush(l, side, "close")
+			}
 		case 'x':
 			if cancel != nil {
 				ev := l.begin(side, "cancel", 0, 0)
@@ -310,7 +329,11 @@ func (x *Exec) runActs(l *RPCLog, side byte, st drpc.Stream, acts []Act, cancel 
 		case 'f':
 			if f, ok := st.(interface{ RawFlush() error }); ok {
 				ev := l.begin(side, "flush", 0, 0)
-				l.end(ev, f.RawFlush())
+				err := f.RawFlush()
+				l.end(ev, err)
+				if err == nil && x.AfterFlush != nil {
+					x.AfterFlush(l, side, "flush")
+				}
 			}
 		case 'q':
 			census.Quiesce(rig.Watchdog)
